@@ -22,6 +22,11 @@ def gen(rng):
     clash_comp = rng.choice([None, 'mid', 'leafA', 'leafB', 'm1'])
     units_from = rng.choice(['local', 'local', 'imported'])
     nown = rng.choice([0, 0, 1, 2, 3])                 # components of the importing model encapsulated in the first instance
+    # a second name of the library for its millivolt (alias = 1 mV), used by leafA.src: two equivalent units of different names,
+    # of which flattening keeps one; the alias may be called like the importer's millisecond
+    alias = None
+    if rng.random() < 0.4:
+        alias = 'ms' if (mv != 'ms' and rng.random() < 0.6) else 'alias_mv'
     # library
     lib = HEAD % 'modlib'
     if units_from == 'imported':
@@ -30,6 +35,8 @@ def gen(rng):
         lib += '  <units name="%s"><unit units="volt" prefix="milli"/></units>\n' % mv
     if cn_units == 'cu':
         lib += '  <units name="cu"><unit units="volt"/></units>\n'
+    if alias:
+        lib += '  <units name="%s"><unit units="%s"/></units>\n' % (alias, mv)
     mid = depth == 2
     lib += ('  <component name="outer">\n    <variable name="a_in" units="volt" interface="public_and_private"/>\n'
             '    <variable name="y" units="volt" interface="public_and_private"/>\n  </component>\n')
@@ -37,7 +44,7 @@ def gen(rng):
         lib += ('  <component name="mid">\n    <variable name="a" units="%s" interface="public_and_private"/>\n'
                 '    <variable name="v" units="%s" interface="public_and_private"/>\n  </component>\n') % (mv, mv)
     lib += ('  <component name="leafA">\n    <variable name="a" units="%s" interface="public"/>\n    <variable name="src" units="%s" interface="public"/>\n'
-            '    <math xmlns="%s"><apply><eq/><ci>src</ci><apply><times/><cn cellml:units="dimensionless">%s</cn><ci>a</ci></apply></apply></math>\n  </component>\n') % (mv, mv, MML, K)
+            '    <math xmlns="%s"><apply><eq/><ci>src</ci><apply><times/><cn cellml:units="dimensionless">%s</cn><ci>a</ci></apply></apply></math>\n  </component>\n') % (mv, alias or mv, MML, K)
     lib += ('  <component name="leafB">\n    <variable name="src" units="volt" interface="public"/>\n    <variable name="v" units="volt" interface="public"/>\n'
             '    <math xmlns="%s"><apply><eq/><ci>v</ci><apply><plus/><ci>src</ci><cn cellml:units="%s">%s</cn></apply></apply></math>\n  </component>\n') % (MML, cn_units, Cc)
     par = 'mid' if mid else 'outer'
@@ -97,4 +104,4 @@ def gen(rng):
         multi['own%d.zz' % j] = [20.0 + j]
     return dict(files=files, origin='origin.cellml', n=n, depth=depth, expect=expect, multi=multi, ncomp=ncomp,
                 nown=nown,
-                opts=dict(mv=mv, cn_units=cn_units, clash_comp=clash_comp, units_from=units_from, K=K, C=Cc, A=A, nown=nown))
+                opts=dict(mv=mv, alias=alias, cn_units=cn_units, clash_comp=clash_comp, units_from=units_from, K=K, C=Cc, A=A, nown=nown))
